@@ -52,4 +52,28 @@ def restoreF {V : Type} (state residue : String → V) : String → V :=
     | some s => state s
     | none => residue f
 
+/-! ## classification of the shared-ownership / interior-mutability cells reachable from a cloned field of `Env` -/
+
+/-- What a cell (kind, `Owner.member`, cell type — a row of the generated `interiorCells`) means for a fork that
+    clones the field:
+    * `immutable`        — `Rc<str>`: shared, no way to write through it;
+    * `sharedImmutable`  — `Rc<T>` of a record that is never mutated through the `Rc` (no `Rc::get_mut` / `make_mut`);
+                           the cells INSIDE `T` are rows of their own (`Code.value`, `Code.source`, `Function.body`, …);
+    * `opaqueImmutable`  — `Rc<dyn FunctionBodyObject<S>>`: the trait offers `execute(&self, …)` only;
+    * `clonedOnFork`     — `Box<dyn Data>`: `Data: DynClone`, `Entry` derives `Clone`, so the clone of `DataSet` clones
+                           every entry with the stored type's own `Clone`;
+    * `sharedMutable`    — `Code.value: RefCell<String>`: really shared between starter and child and really written
+                           (by the lexer that reads the input the `Code` belongs to, append-only: `codeValueWriters`);
+                           it is the source text kept for error messages, none of the state the property names;
+    * `UNCLASSIFIED`     — anything else. -/
+def cellClass (e : String × String × String) : String :=
+  if e.1 = "Rc" ∧ e.2.2 = "Rc<str>" then "immutable"
+  else if e.1 = "Rc" ∧ (e.2.2 = "Rc<Source>" ∨ e.2.2 = "Rc<Alias>" ∨ e.2.2 = "Rc<Function<S>>" ∨ e.2.2 = "Rc<Code>")
+    then "sharedImmutable"
+  else if (e.1 = "Rc" ∨ e.1 = "dyn") ∧ e.2.1 = "Function.body" ∧ e.2.2 = "Rc<dyn FunctionBodyObject<S>>"
+    then "opaqueImmutable"
+  else if e.1 = "dyn" ∧ e.2.1 = "Entry.0" ∧ e.2.2 = "Box<dyn Data>" then "clonedOnFork"
+  else if e.1 = "RefCell" ∧ e.2.1 = "Code.value" ∧ e.2.2 = "RefCell<String>" then "sharedMutable"
+  else "UNCLASSIFIED"
+
 end YashModel.Fork
